@@ -83,7 +83,8 @@ struct Elem
 static int cmp_elem(void const *l, void const *r)
 {
     long a = ((Elem const *)l)->key, b = ((Elem const *)r)->key;
-    return (a > b) - (a < b);
+    // any negative / zero / positive value is a valid answer: magnitudes other than one catch code that uses the result as +-1
+    return a > b ? 3 : a < b ? -5 : 0;
 }
 
 static const int MAXN = 40;
